@@ -6,7 +6,9 @@
 package rig
 
 import (
+	"encoding/json"
 	"fmt"
+	"io"
 	"strconv"
 	"strings"
 	"sync"
@@ -112,6 +114,9 @@ type Log struct {
 	closed bool
 	// late counts events appended after Close (leftover goroutines).
 	late int
+	// Journal, if set, receives every event as one JSON line at append time
+	// (SIGKILL tier: the parent reads what the child managed to write).
+	Journal io.Writer
 }
 
 func NewLog() *Log {
@@ -135,6 +140,11 @@ func (l *Log) appendLocked(e Ev) int {
 	e.Seq = len(l.evs)
 	e.T = int64(time.Since(l.start))
 	l.evs = append(l.evs, e)
+	if l.Journal != nil {
+		if b, err := json.Marshal(e); err == nil {
+			l.Journal.Write(append(b, '\n'))
+		}
+	}
 	l.cond.Broadcast()
 	return e.Seq
 }
